@@ -48,6 +48,53 @@ def ops(seed):
     yield "select_next_plate", sel
 
 
+def reusable(seed):
+    """strategy objects that live across several calls (a scorer scoring plate after plate in one process, a generator reused for several screens):
+    (name, factory, call(obj, generator)).  Each call's output may depend on the inputs and the generator only - not on what the object did before."""
+    from batchie.core import ThetaHolder
+    from batchie.distance_calculation import ChunkedDistanceMatrix
+    from batchie.models.sparse_combo import SparseDrugComboMCMCSample
+    from batchie.scoring.gaussian_dbal import GaussianDBALScorer
+    part = screen(seed, observed=False); full = screen(seed, True)
+    r = np.random.default_rng(77 + seed); nth = 9; D = 2
+    ns, nt = part.n_unique_samples, part.n_unique_treatments
+    h = ThetaHolder(nth)
+    for _ in range(nth):
+        h.add_theta(SparseDrugComboMCMCSample(W=r.normal(size=(ns, D)), W0=r.normal(size=ns), V2=r.normal(size=(nt, D)), V1=r.normal(size=(nt, D)),
+                                              V0=r.normal(size=nt), alpha=float(r.normal()), precision=float(r.uniform(0.5, 3))))
+    dm = ChunkedDistanceMatrix(nth)
+    for i in range(nth):
+        for j in range(i): dm.add_value(i, j, float(r.uniform(0.1, 2)))
+    plates = {p.plate_id: p for p in part.plates if not p.is_observed}
+    yield "GaussianDBALScorer(sub-sampled triples)", lambda: GaussianDBALScorer(max_chunk=2, max_triples=12), lambda o, g: sorted((int(k), float(v)) for k, v in o.score(plates, dm, h, g, False).items())
+    yield "GaussianDBALScorer via score_chunk", lambda: GaussianDBALScorer(max_chunk=50, max_triples=20), (
+        lambda o, g: (lambda sh: (sh.plate_ids.tolist(), sh.scores.tolist()))(score_chunk(scorer=o, thetas=h, screen=part, distance_matrix=dm, rng=g, n_chunks=1, chunk_index=0)))
+    yield "RandomScorer", lambda: RandomScorer(), lambda o, g: sorted(o.score(plates, None, None, g, False).items())
+    yield "SampleSegregating", lambda: R.SampleSegregatingPermutationPlateGenerator(5), lambda o, g: o.generate_plates(part, g)
+    yield "PlatePermutation", lambda: R.PlatePermutationPlateGenerator(), lambda o, g: o.generate_plates(part, g)
+    yield "SparseCover", lambda: R.SparseCoverPlateGenerator(False), lambda o, g: o.generate_and_unmask_initial_plate(full, g)
+    yield "FixedSizeSmoother", lambda: R.FixedSizeSmoother(3), lambda o, g: o.smooth_plates(part, g)
+    yield "KPerSamplePolicy", lambda: KPerSamplePlatePolicy(1), lambda o, g: sorted(int(p.plate_id) for p in o.filter_eligible_plates([], [p for p in part.plates if len(set(p.sample_ids)) == 1 and not p.is_observed], g))
+
+
+def check_reuse(seed, viol):
+    n = 0
+    for name, make, call in reusable(seed):
+        obj = make()
+        for sd in (seed, seed + 101, seed, seed + 202, seed + 101):
+            try:
+                got = digest(call(obj, np.random.default_rng(sd))); want = digest(call(make(), np.random.default_rng(sd)))
+            except Exception as e:
+                got, want = "raised %s" % type(e).__name__, None
+                if isinstance(e, ValueError): got = want = "ValueError"
+            n += 2
+            if got != want:
+                if len(viol) < 5: viol.append({"op": name, "seed": seed, "what": "a reused %s gives a different result than a fresh one for the same inputs and an identically seeded generator "
+                                                                                 "(the output depends on what the object did before)" % name, "site": "native-reuse:" + name})
+                break
+    return n
+
+
 def main():
     ap = argparse.ArgumentParser()
     ap.add_argument("--tier", default="quick"); ap.add_argument("--seed", type=int, default=0)
@@ -70,8 +117,10 @@ def main():
                 outs.append(o)
             if outs[0] != outs[1] and len(viol) < 5:
                 viol.append({"op": name, "seed": sd, "what": "two runs with identically seeded generators differ", "site": "native:" + name})
-    print(json.dumps({"violations": viol, "bounded": [{"function": "generators, smoothers, hold-out splits, RandomScorer, select_next_plate",
-        "bound": "%d seeds x 10 operations x 2 global-state perturbations on a 24-row screen" % len(list(seeds)), "evaluations": evals, "distinct_nontrivial": evals // 2,
+    for sd in seeds:
+        evals += check_reuse(sd, viol)
+    print(json.dumps({"violations": viol, "bounded": [{"function": "generators, smoothers, hold-out splits, RandomScorer, select_next_plate, GaussianDBALScorer (sub-sampled triples)",
+        "bound": "%d seeds x 10 operations x 2 global-state perturbations on a 24-row screen; 8 strategy objects reused over 5 calls with interleaved seeds vs fresh objects" % len(list(seeds)), "evaluations": evals, "distinct_nontrivial": evals // 2,
         "label": "bounded stand-in, not counted as proved"}]}))
 
 
